@@ -13,6 +13,8 @@ ALL functions of the anchored modules of the property, not only over the functio
     accumulator read    a conversion loop reads the dictionary it is writing as a whole
     sequential subst.   a mapping applied entry by entry to the object it rewrites
     discarded result    the result of subs/replace/reassign/... dropped
+    yield then mutate   a generator mutates a container it has already yielded
+    falsy replacement   replace()/create() written as kwargs.get(k) or old
     loop-carried flag   (advisory) a flag tested and cleared in an inner loop but initialised outside the outer one
 """
 from __future__ import annotations
@@ -107,6 +109,15 @@ def run(chk, repo, pid):
                     and s_.value.func.attr in PURE_METHODS and not any(k.arg == 'inplace' for k in s_.value.keywords):
                 found.append(('discarded result', s_.lineno, unparse(s_)[:80],
                               'pharmpy objects are immutable: the call has no effect'))
+        for v, y, mnode in lints.yield_then_mutate(f.node):
+            found.append(('yield then mutate', mnode.line, f'yield ... {v} ... ; {mnode.text()[:50]}',
+                          f'the yielded `{v}` is mutated afterwards: a consumer that kept it sees the later content'))
+        for b in ast.walk(f.node):
+            if f.name in ('replace', 'create', 'derive') and isinstance(b, ast.BoolOp) and isinstance(b.op, ast.Or) \
+                    and isinstance(b.values[0], ast.Call) and isinstance(b.values[0].func, ast.Attribute) \
+                    and b.values[0].func.attr == 'get':
+                found.append(('falsy replacement ignored', b.lineno, unparse(b)[:80],
+                              'a replacement value that is falsy ((), 0, "", False) is silently replaced by the old value'))
         for shape, line, construct, why in found:
             exc = EXCEPTIONS.get((f.module.name, f.name, shape))
             chk.violation(Y0, f.module.rel, f.qualname, f'{shape}: {construct}', why + (f' [listed: {exc}]' if exc else ''),
@@ -118,4 +129,4 @@ def run(chk, repo, pid):
                 chk.violation(Y0, f.module.rel, f.qualname, f'loop-carried flag `{v}`',
                               'tested and cleared in an inner loop, initialised outside the outer loop', line=M.lineno,
                               advisory=True)
-    chk.instance(Y0, f'{nfun} functions of {len(mods)} anchored modules scanned for 8 defect shapes', n=nfun)
+    chk.instance(Y0, f'{nfun} functions of {len(mods)} anchored modules scanned for 10 defect shapes', n=nfun)
